@@ -49,7 +49,7 @@ def generate_ops(rng, cfg, spec, tier) -> list[dict]:
         if op["codec"] == "zarr" and rng.random() < 0.25:
             # the first attempt to rebuild from the (dask-backed) zarr tree fails in a drawn task of a drawn scheduler
             # call of deserialize(); the attempt is repeated from the same stored state
-            op["load_fault"] = {"call": rng.choice([1, 1, 2, 3, 5, 8]), "at": rng.choice([1, 1, 2]),
+            op["load_fault"] = {"same_tree": rng.random() < 0.6, "call": rng.choice([1, 1, 2, 3, 5, 8]), "at": rng.choice([1, 1, 2]),
                                 "exc": rng.choice(["InjectedFault", "MemoryError", "OSError"])}
         if not sd:
             dataless[tgt] = True
@@ -263,6 +263,11 @@ def execute(cfg: dict, *, stop_at_first=True, trace=False) -> RunResult:
                 else:
                     rebuild = (lambda: type(obj).load(path, engine=op["engine"])) if via_save else (lambda: type(obj).deserialize(store_.get()))
                     lf = op.get("load_fault")
+                    if lf and not via_save and lf.get("same_tree", True):
+                        # the tree is opened once; the interrupted deserialize() and its repetition see the same object
+                        held = oracle.capture(store_.get)
+                        if held.ok:
+                            rebuild = (lambda: type(obj).deserialize(held.value))
                     if lf:
                         sim.cfg.permanent_at, sim.cfg.permanent_exc, sim.cfg.permanent_call = int(lf["at"]), lf["exc"], int(lf["call"])
                         sim.cfg.armed_calls = 0
